@@ -441,7 +441,16 @@ fn fam_wrap(ctx: &CaseCtx, cov: &mut Cov) -> CaseOut {
     pp.w = [10, 30, 4, 8, 4, 4, 4];
     let mut it = Interp::new();
     let mut pg = ProgGen::new();
-    let prog = pg.generate(&mut rng, &pp, &mut it);
+    let mut prog = pg.generate(&mut rng, &pp, &mut it);
+    // one stream in five ends exactly on a window boundary: the output is a whole number of
+    // windows and the last one is full when the decoder finishes
+    if ctx.index % 5 == 2 {
+        let l = it.hist.len() as u64;
+        for k in 0..(eff - l % eff) % eff {
+            prog.push(Sym::Lit((k as u8).wrapping_mul(31) ^ 0x55));
+        }
+        cov.name("wrap.output_is_a_whole_number_of_windows", 1);
+    }
     let pc = PositiveCase {
         props,
         prog: &prog,
